@@ -1,6 +1,6 @@
 SPECIFICATION Spec
 CONSTANTS FixUnprotect = TRUE  FixFragCount = TRUE  GeckoPadCheck = TRUE  TcpAddrCheck = TRUE
-  UDPLenCheck = TRUE  PunchMin = 32  FeedIdxCheck = TRUE  Mode = "all"  MaxSteps = 4
+  UDPLenCheck = TRUE  PunchMin = 32  FeedIdxCheck = TRUE  Mode = "shapes"  Only = "punch"  MaxSteps = 4
 INVARIANT NoViolation
 VIEW View
 CHECK_DEADLOCK FALSE
